@@ -30,6 +30,7 @@ type Gen struct {
 	timeoutMS int
 	modCycle  bool
 	conModCache map[*Contract]map[string]bool
+	firstPassOnly bool // solveAll pass A: single-solver stage only (see solve.go)
 	ifaceModCache map[string]map[string]bool
 	namedTypes []types.Type
 	interference bool
@@ -491,8 +492,14 @@ func calleeKeys(c *ssa.CallCommon) []string {
 		}
 		if f.Origin() != nil {
 			keys = append(keys, funcKey(f.Origin()))
-			if p := recvPkg(f.Origin().Signature.Recv().Type()); f.Origin().Signature.Recv() != nil && p != nil {
-				keys = append(keys, shortPkg(p.Path())+"."+strings.TrimPrefix(funcKey(f.Origin()), p.Path()+"."))
+			if f.Origin().Signature.Recv() != nil {
+				if p := recvPkg(f.Origin().Signature.Recv().Type()); p != nil {
+					keys = append(keys, shortPkg(p.Path())+"."+strings.TrimPrefix(funcKey(f.Origin()), p.Path()+"."))
+				}
+			} else if f.Origin().Pkg != nil && f.Origin().Pkg.Pkg.Path() != "github.com/absfs/absnfs" {
+				// instance of a generic function of another package (slices.Equal[...]): keyed like the generic
+				op := f.Origin().Pkg.Pkg.Path()
+				keys = append(keys, shortPkg(op)+"."+strings.TrimPrefix(funcKey(f.Origin()), op+"."))
 			}
 		}
 		return keys
